@@ -16,3 +16,7 @@ open SSVerif.Dict
 #print axioms C16_chain_persists
 #print axioms C16_d2p_covers
 #print axioms C16_key_equality
+#print axioms C16_compress_lossless
+#print axioms C16_d2p_tables_exact
+#print axioms C16_d2p_internal_exact
+#print axioms C16_nearest_backoff
